@@ -68,6 +68,8 @@ class World:
         def condition(self, out=None, **kw):
             if out == "CR":
                 raise RuntimeError("condition failed")
+            if out == "CX":
+                raise SystemExit(3)
             return out in ("T", "MR")
         self.P = type("P", (Feedback,), {"message_template": TPL["orig:P"], "title": TITLE["orig:P"],
                                           "condition": condition, "category": "instructor"})
@@ -213,12 +215,12 @@ class World:
                     obj = cls.__new__(cls)
                     self.objs.append(obj)
                     obj.__init__(*args, **kw)
-                except Exception:
+                except (Exception, SystemExit):
                     raised = True
             elif op == "handle":
                 try:
                     self.objs[a["i"] - 1]._handle_condition()
-                except Exception:
+                except (Exception, SystemExit):
                     raised = True
             elif op == "override":
                 key = "message_template" if a["attr"] == "template" else "title"
